@@ -58,7 +58,13 @@ func cmdExplore(args []string) {
 	out := fs.String("json", "", "write results json")
 	fs.Parse(args)
 	t0 := time.Now()
-	ov, _, err := overlayFrom(*repo, strings.Split(*hdirs, ",")...)
+	genDir, _ := os.MkdirTemp("", "vp-gen-")
+	defer os.RemoveAll(genDir)
+	if err := generateHarnesses(*repo, "", genDir); err != nil {
+		fmt.Fprintln(os.Stderr, err)
+		os.Exit(2)
+	}
+	ov, _, err := overlayFrom(*repo, append(strings.Split(*hdirs, ","), genDir)...)
 	if err != nil {
 		fmt.Fprintln(os.Stderr, err)
 		os.Exit(2)
